@@ -58,7 +58,12 @@ def guard_tables(chk, lib, rule, want_off=True, want_on=False):
             return
         if (not flag_on) and not want_off:
             return
-        if o.kind == 'exc':
+        if o.kind == 'exc' and (o.m.lookups or o.m.writes):
+            # the guard prefix was passed (the bracket lookup / a write was reached); what follows is not C05's subject
+            kind_eff = 'ok'
+        else:
+            kind_eff = o.kind
+        if kind_eff == 'exc':
             chk.ob(rule, "%s: the guard prefix is a decision over (flag, range predicates): %s" % (name, o.exc), False,
                    o.exc.where, key + '-unrecognised')
             return
@@ -70,10 +75,10 @@ def guard_tables(chk, lib, rule, want_off=True, want_on=False):
         if should_err:
             chk.ob(rule, "%s %s -> must be Err(OutOfBounds) without touching the target (got %s %s, %d writes)" %
                    (name, key, o.kind, o.err, len(o.m.writes)),
-                   o.kind == 'err' and o.err == OOB and not o.m.writes, lib.body(name_to_path[name])['span'], name + '-' + key)
+                   kind_eff == 'err' and o.err == OOB and not o.m.writes, lib.body(name_to_path[name])['span'], name + '-' + key)
         else:
-            chk.ob(rule, "%s %s -> must compute (got %s %s, %d writes)" % (name, key, o.kind, o.err, len(o.m.writes)),
-                   o.kind == 'ok' and len(o.m.writes) >= 1, lib.body(name_to_path[name])['span'], name + '-' + key)
+            chk.ob(rule, "%s %s -> must compute (got %s %s, %d writes, %d lookups)" % (name, key, o.kind, o.err, len(o.m.writes), len(o.m.lookups)),
+                   kind_eff == 'ok' and (len(o.m.writes) >= 1 or len(o.m.lookups) >= 1), lib.body(name_to_path[name])['span'], name + '-' + key)
         rows.append((name, key, o.kind))
 
     name_to_path = {'Linear': LIN, 'CubicSpline': SPL, 'Bilinear': BIL}
